@@ -641,4 +641,18 @@ pub const SHAPES: &[&str] = &[
     "or_d(or_i(pk(@K),and_v(v:@O,pk(@K))),pk(@K))",
     "and_v(v:pk(@K),or_i(1,pk(@K)))",
     "thresh(2,pk(@K),s:pk(@K),a:or_i(1,pk(@K)))",
+    "or_d(multi(1,@K,@K),multi(2,@K,@K,@K))",
+    "or_i(multi(2,@K,@K),multi(1,@K,@K,@K))",
+    "t:or_c(multi(1,@K,@K,@K),v:multi(1,@K,@K,@K))",
+    "or_b(multi(1,@K,@K),a:multi(2,@K,@K))",
+    "thresh(2,multi(1,@K,@K),a:multi(1,@K,@K),a:multi(2,@K,@K))",
+    "andor(multi(2,@K,@K),multi(1,@K,@K),multi(1,@K,@K))",
+    "and_v(v:@A,and_v(v:pk(@K),@A))",
+    "and_v(v:@O,and_v(v:pk(@K),@O))",
+    "and_v(or_c(pk(@K),v:@A),and_v(v:pk(@K),@A))",
+    "or_d(and_v(v:pk(@K),@A),and_v(v:pk(@K),and_v(v:@A,@O)))",
+    "andor(and_v(v:pk(@K),@O),pk(@K),and_v(v:pk(@K),@O))",
+    "or_d(pk(@K),and_v(v:pk(@K),and_v(v:@OT,@AT)))",
+    "thresh(2,pk(@K),s:pk(@K),sln:@A,sln:@A)",
+    "thresh(3,pk(@K),s:pk(@K),sln:@O,sln:@A)",
 ];
